@@ -8,7 +8,7 @@ namespace PonyVerif.Model.Cascade
 theorem nbeq {p x : Nat} (h : ¬ p = x) : (p == x) = false := by simpa using h
 
 section steps
-variable {sch : Schema} {Q : ObjId → Prop}
+variable {sch : Schema} {ct : ClassTable} {Q : ObjId → Prop}
 
 /-- what the callers of a direct step get -/
 structure StepOk (sch : Schema) (Q : ObjId → Prop) (s s' : Store) : Prop where
@@ -153,7 +153,7 @@ theorem members_nodup (s : Store) (o : ObjId) (c : Attr) : (s.members o c).Nodup
 /-- `attr.__set__(obj, (), undo_funcs)` for a collection without cascade_delete: every link of the collection goes, on both sides -/
 theorem setCollEmpty_ok {c : Attr} {dc : Side} {o : ObjId} {s s' : Store}
     (hc : sch.side c = some dc) (hdc : dc.isColl = true) (hcasc : dc.cascade = false) (hQ : Q o)
-    (h : setCollEmpty sch o c s = .ok s') (hR : Range sch s) (hA : AgreeX sch Q s) (hN : NoDangX sch Q s) :
+    (h : setCollEmpty sch o c s = .ok s') (hR : Range sch ct s) (hA : AgreeX sch Q s) (hN : NoDangX sch Q s) :
     StepOk sch Q s s' ∧ ∀ q, hasB sch s' o c q = false := by
   unfold setCollEmpty at h
   split at h
